@@ -1470,11 +1470,6 @@ class C36(Prop):
         if out and out[0].startswith('IMPL-EXC'):
             return out[0]
         msg = self.check(c)
-        if msg is not None and msg.startswith('[ill-typed-union:key-position]'):
-            # known defect: with unify=True tables whose VALUE fields and key already agree are passed to TableUnion unchanged even
-            # when their rows differ in where the key fields sit; attributed only when value type and key type of all children agree
-            self.stats['known']['union-key-position'] = self.stats['known'].get('union-key-position', 0) + 1
-            return '[class=union-key-position] ' + msg
         if msg is None or c['kind'] != 'impute':
             return msg
         for cls in ('struct-union', 'clash-refilled'):
@@ -1668,11 +1663,11 @@ class C36(Prop):
 
 
 # minimal witnesses of the two known defects of impute_type (known_findings.json)
+# regression case of the defect repaired in /repo e4a772c10 (corpus/c36/07)
 UNION_WITNESS = {'kind': 'tunion', 'unify': True,
                  'tables': [[['annotate', [['a', 'i32', 'idx']]]],
                             [['annotate', [['a', 'i32', 'idx']]], ['key_by', []], ['select', ['a', 'idx'], []], ['key_by', ['idx']]]]}
 IMPUTE_WITNESS = {
-    'union-key-position': UNION_WITNESS,
     'struct-union': {'kind': 'impute', 'value': {'list': [{'struct': [['a', {'i': 1}]]}, {'struct': [['b', {'i': 2}]]}]}},
     'clash-refilled': {'kind': 'impute', 'value': {'list': [{'list': [{'list': [{'i': 1}]}, {'list': [{'s': 'a'}]}]}, {'list': [{'list': [{'i': 2}]}]}]}},
 }
